@@ -84,6 +84,8 @@ package common
 //@ func (*WebSocketConn).Write
 //@   requires notHeld: !held(ws.writeM)
 //@   atcall WriteMessage requires exclusive: heldx(ws.writeM)
+//@   # the message goes out as ONE BINARY websocket message of exactly the bytes given (the reader skips text messages)
+//@   atcall WriteMessage requires binaryMessageOfTheData: arg0.(int) == 2 && sameSlice(arg1.([]byte), data)
 //@   ensures ret1 == nil ==> ret0 == len(data)
 //@   flag noframe
 
